@@ -1555,17 +1555,23 @@ def _run_job(idx, job, cov, lean, seed, tier, budget):
     import random, signal
     from explore import coexplore, cosim
 
+    # The budget is CPU time of this worker (load independent: the box is shared with many other checks and wall
+    # times stretch 5-7x); a much larger wall-clock alarm still ends a job that blocks without consuming CPU.
+    wall = budget * 8
+
     def on_alarm(*a):
-        raise JobTimeout("job exceeded its %d s budget" % budget)
+        raise JobTimeout("job exceeded its budget (%d s CPU / %d s wall)" % (budget, wall))
     signal.signal(signal.SIGALRM, on_alarm)
-    signal.alarm(budget)
+    signal.signal(signal.SIGVTALRM, on_alarm)
+    signal.alarm(wall)
+    signal.setitimer(signal.ITIMER_VIRTUAL, budget)
     try:
         inst = job.make()
         job.label = getattr(inst, "name", None) or job.label
         if job.mode == "A":
-            dis = coexplore(inst, lean, cov, deadline=time.time() + budget * 0.9, **job.kw)
+            dis = coexplore(inst, lean, cov, deadline=time.time() + wall * 0.9, **job.kw)
         elif job.mode == "D":
-            dis = coexplore_dyn(inst, lean, cov, deadline=time.time() + budget * 0.9, **job.kw)
+            dis = coexplore_dyn(inst, lean, cov, deadline=time.time() + wall * 0.9, **job.kw)
         elif job.mode == "C":
             return idx, cov.__dict__, conv_run(inst, lean, cov, seed, tier)
         elif job.mode == "E":
@@ -1575,6 +1581,7 @@ def _run_job(idx, job, cov, lean, seed, tier, budget):
             dis = cosim(inst, lean, cov, rng, **job.kw)
     finally:
         signal.alarm(0)
+        signal.setitimer(signal.ITIMER_VIRTUAL, 0)
     for ci in cov.instances:
         if ci.get("mode") == "A" and not ci.get("exhaustive") and not dis:
             # an exploration that does not finish (state blow-up / time-out) is not silently accepted
